@@ -1,4 +1,5 @@
 import PdfModel.Lemmas.PageTree
+import PdfModel.Generated.Lexical
 
 /-!
   C07 — "Page n is the n-th leaf of the page tree; attributes come from nearest ancestor".
@@ -154,5 +155,22 @@ example : represents (tblOfList (renderT none (chain 16))) none (chain 16) = tru
 example : (getPage (tblOfList (renderT none (chain 16))) 20 (rootRec (chain 16)) 0).isOk = true := by decide +kernel
 example : represents (tblOfList (renderT none (chain 17))) none (chain 17) = true := by decide +kernel
 example : getPage (tblOfList (renderT none (chain 17))) 20 (rootRec (chain 17)) 0 = .err := by decide +kernel
+
+end C07
+
+/-! ## Tie to the source: constants and byte classes (appended by the translator package)
+
+`Generated/Lexical.lean` is re-extracted from `pdf/src` by `./check` before this file is built. -/
+
+namespace C07
+
+/-- `PageTree::page` starts `page_limited` with the depth budget of the source (16; the depth-bound theorems and examples above are stated for it) -/
+theorem constants_match_source :
+    (∀ (tbl : PageTree.Tbl) (fuel : Nat) (self : PageTree.TreeRec) (n : Nat),
+      PageTree.page tbl fuel self n = PageTree.pageLimited tbl fuel Generated.pageTreeDepth self n) ∧
+    (Generated.pageTreeDepth = 16) := by
+  refine ⟨?_, ?_⟩
+  · first | (intros; rfl) | fail "constants_match_source (C07): the model's PageTree.Tbl, PageTree.TreeRec, PageTree.page, PageTree.pageLimited does not match the source (Generated.pageTreeDepth, re-extracted from pdf/src)"
+  · first | decide +kernel | fail "constants_match_source (C07): the model's statement does not match the source (Generated.pageTreeDepth, re-extracted from pdf/src)"
 
 end C07
